@@ -1,16 +1,23 @@
 #!/bin/bash
-# usage: check.sh <property> <quick|thorough>   (cwd = /verif)
-# Rebuilds the simulator against /repo's current working tree, then runs the check.
-# exit 0 = held, 1 = VIOLATION line printed, 2 = build/harness trouble.
+# usage: check.sh <property> <quick|thorough>   |   check.sh replay <file>      (cwd = /verif)
+# Rebuilds the simulator against /repo's current working tree (hooks tag on), then runs
+# the check.  exit 0 = held, 1 = VIOLATION line printed, 2 = build/harness trouble.
 set -u
 export GOFLAGS=-mod=mod GOPROXY=off GOSUMDB=off GOTOOLCHAIN=local
 ROOT="$(cd "$(dirname "$0")" && pwd)"
 export VERIF_ROOT="$ROOT"
 mkdir -p "$ROOT/bin" "$ROOT/evidence" "$ROOT/replays"
 cp /repo/go.sum "$ROOT/sim/go.sum" 2>/dev/null
+NEED_RACE=0
+if [ "${1:-}" = "C17" ]; then NEED_RACE=1; fi
+if [ "${1:-}" = "replay" ] && grep -q '"rule": "C17.race' "${2:-/dev/null}" 2>/dev/null; then NEED_RACE=1; fi
 (
   flock 9
-  cd "$ROOT/sim" && go build -tags verif -o "$ROOT/bin/artsim" . 
+  cd "$ROOT/sim" || exit 2
+  go build -tags verif -o "$ROOT/bin/artsim" . || exit 2
+  if [ "$NEED_RACE" = 1 ]; then
+    go build -tags verif -race -o "$ROOT/bin/artsim-race" . || exit 2
+  fi
 ) 9>"$ROOT/bin/.build.lock" || { echo "build failed" >&2; exit 2; }
 if [ "${1:-}" = "replay" ]; then
   exec "$ROOT/bin/artsim" replay "$2"
